@@ -14,7 +14,8 @@ Inductive action := ACreate | AAddMeta | ARevert | ADelMeta | AUnknown.
 Inductive datak := DOk | DBad.
 
 (* what the backend answers to the call; the classes are those bulk.go maps to error codes *)
-Inductive outcome := OSucc | OInsufficient | OCommand | ONotFound | OOther.
+(* OSame: a failure whose error text does not identify the element (two such failures look identical) *)
+Inductive outcome := OSucc | OInsufficient | OCommand | ONotFound | OOther | OSame.
 
 Inductive ecode := ENone | EInsufficientFund | EValidation | ENotFound | EInternal.
 
@@ -68,7 +69,8 @@ Definition ok_result (i : nat) (e : element) : result :=
   {| r_type := RAction (e_act e); r_code := ENone;
      r_tag := match e_act e with ACreate | ARevert => Some i | _ => None end |}.
 Definition err_result (i : nat) (e : element) : result :=
-  {| r_type := RError; r_code := code_of (e_act e) (e_out e); r_tag := Some i |}.
+  {| r_type := RError; r_code := code_of (e_act e) (e_out e);
+     r_tag := match e_out e with OSame => None | _ => Some i end |}.
 Definition invalid_result : result := {| r_type := RError; r_code := EValidation; r_tag := None |}.
 
 Definition mkcall (i : nat) (e : element) : call := {| c_idx := i; c_act := e_act e; c_ik := e_ik e |}.
